@@ -127,6 +127,7 @@ func (m *Map[K, V]) Replace(old, new K, v V) {
 		// Point idx at the end of m.items and ensure there is an item there.
 		idx = len(m.items)
 		m.items = append(m.items, Tuple[K, V]{})
+		m.index[old] = idx
 	}
 
 	// If the key changed, there's some tidyup...
